@@ -554,16 +554,29 @@ class Registries:
         raise AnchorError(f"{cls}.__init__ does not push table {var} into self.{attr} in the recognised form")
 
     def _render_rules(self) -> dict[str, Func]:
+        """The renderer's rule table: `inspect.getmembers(self, predicate=inspect.ismethod)` filtered on names that do not start
+        with 'render' or '_' - built in the constructor or (lazily) in any other method / property of the class.  Static methods
+        and properties are not bound methods, so they are not collected."""
         ci = self.p.cls("RendererHTML")
-        init = ci.methods.get("__init__")
-        if init is None:
-            raise AnchorError("RendererHTML.__init__ not found")
-        src = U(init.node)
-        consts = {n.value for n in ast.walk(init.node) if isinstance(n, ast.Constant) and isinstance(n.value, str)}
-        if "getmembers" not in src or "startswith" not in src or not {"render", "_"} <= consts or "rules" not in src:
-            raise AnchorError("RendererHTML.__init__ does not build the rule table in the recognised form (members of the instance "
+        builders = []
+        for fn in [n for n in ast.walk(ci.node) if isinstance(n, (ast.FunctionDef, ast.AsyncFunctionDef))]:
+            src = U(fn)
+            consts = {n.value for n in ast.walk(fn) if isinstance(n, ast.Constant) and isinstance(n.value, str)}
+            if "getmembers" in src and "ismethod" in src and "startswith" in src and {"render", "_"} <= consts:
+                builders.append(fn)
+        if not builders:
+            raise AnchorError("RendererHTML does not build its rule table in the recognised form (bound methods of the instance "
                               "whose names do not start with 'render' or '_')")
-        return {n: f for n, f in ci.methods.items() if not (n.startswith("render") or n.startswith("_"))}
+        self.render_table_builders = builders
+        out = {}
+        for n, f in ci.methods.items():
+            if n.startswith("render") or n.startswith("_"):
+                continue
+            decos = {U(d).split(".")[-1].split("(")[0] for d in f.node.decorator_list}
+            if decos & {"staticmethod", "property", "setter", "getter", "cached_property"}:
+                continue
+            out[n] = f
+        return out
 
     def all_rule_funcs(self) -> list[RuleReg]:
         return [r for regs in self.rules.values() for r in regs]
